@@ -40,6 +40,7 @@ func (cmpl *compiler) parseExpression(expr ast.Expression) nodeExpression {
 
 	case *ast.BinaryExpression:
 		return &nodeBinaryExpression{
+			idx:        expr.Idx0(),
 			operator:   expr.Operator,
 			left:       cmpl.parseExpression(expr.Left),
 			right:      cmpl.parseExpression(expr.Right),
@@ -421,6 +422,7 @@ type (
 		left       nodeExpression
 		right      nodeExpression
 		operator   token.Token
+		idx        file.Idx
 		comparison bool
 	}
 
